@@ -19,6 +19,7 @@ func init() {
 		Assumptions: []string{"proto.Merge / Marshal+Unmarshal copy; select picks a ready case"},
 		Run:         runC13,
 		Controls: []Control{
+			{Name: "revert-F36-headers-lost-on-early-error", File: "pkg/wrap/stream.go", Old: "\ts.headerM.Lock()\n\tselect {\n\tcase <-s.headerC:\n\tdefault:\n\t\tclose(s.headerC)\n\t}\n\ts.headerM.Unlock()\n\n\ts.closeErrM.Lock()", New: "\ts.closeErrM.Lock()", Expect: "R13.10"},
 			{Name: "incoming-metadata-only-when-outgoing", File: "pkg/wrap/wrap.go", Old: "\tctx = metadata.NewIncomingContext(ctx, md)\n", New: "\tif len(md) > 0 {\n\t\tctx = metadata.NewIncomingContext(ctx, md)\n\t}\n", Expect: "R13.4"},
 			{Name: "revert-F34-eof-is-the-outcome", File: "pkg/wrap/wrap.go", Old: "if err := cs.SendMsg(args); err != nil && err != io.EOF {", New: "if err := cs.SendMsg(args); err != nil {", More: []Edit{{File: "pkg/wrap/wrap.go", Old: "\t\"io\"\n", New: ""}}, Expect: "R13.9"},
 			{Name: "unknown-method-internal", File: "pkg/wrap/wrap.go", Old: "var ErrMethodNotFound = status.Error(codes.Unimplemented, \"method not found\")", New: "var ErrMethodNotFound = status.Error(codes.Internal, \"method not found\")", Expect: "R13.2"},
@@ -46,6 +47,8 @@ func runC13(c *an.Ctx) {
 	r138(c)
 	r139(c)
 	c.Min("R13.9", 1)
+	r1310(c)
+	c.Min("R13.10", 1)
 	c.Min("R13.8", 1)
 	c.Min("R13.1", 3)
 	c.Min("R13.2", 5)
@@ -669,6 +672,70 @@ func r138(c *an.Ctx) {
 
 // r139: the terminal outcome of a unary call is what RecvMsg reports. io.EOF from SendMsg only says
 // "the call has already ended" (cancelled context, early server status); returning it hides the reason.
+// r1310: headers that were set but not sent go out when the stream ends: Close releases the header latch (or
+// finds it released) on every path before it publishes the outcome.
+func r1310(c *an.Ctx) {
+	const rule = "R13.10"
+	fn := mustFunc(c, rule, wrapPkg, "ClientServerStream", "Close")
+	if fn == nil {
+		return
+	}
+	name := "(*pkg/wrap.ClientServerStream).Close"
+	isCloseOf := func(in ssa.Instruction, field string) bool {
+		call, ok := in.(*ssa.Call)
+		if !ok || an.CalleeName(call) != "builtin close" {
+			return false
+		}
+		return isStreamField(call.Call.Args[0], field) || func() bool {
+			for _, s := range an.Sources(call.Call.Args[0]) {
+				if isStreamField(s, field) {
+					return true
+				}
+			}
+			return false
+		}()
+	}
+	var outcome ssa.Instruction
+	for _, f := range append([]*ssa.Function{fn}, an.AnonFuncsDeep(fn)...) {
+		an.Instrs(f, func(in ssa.Instruction) {
+			if isCloseOf(in, "serverSend") {
+				outcome = in
+			}
+		})
+	}
+	if outcome == nil {
+		c.Unk(rule, name+"|headers go out with the status", fn.Pos(), "close(serverSend) not found in Close")
+		return
+	}
+	// every path to the outcome releases the latch or has seen it released (a receive on headerC)
+	t, _ := an.PathQuery{
+		Target: func(x ssa.Instruction) bool { return x == outcome },
+		Avoid:  func(x ssa.Instruction) bool { return isCloseOf(x, "headerC") },
+		AvoidEdge: func(from, to *ssa.BasicBlock) bool {
+			iff, isIf := from.Instrs[len(from.Instrs)-1].(*ssa.If)
+			if !isIf || to != from.Succs[0] {
+				return false
+			}
+			// the select case `<-s.headerC` was taken
+			bo, isBO := iff.Cond.(*ssa.BinOp)
+			if !isBO {
+				return false
+			}
+			ex, isEx := bo.X.(*ssa.Extract)
+			if !isEx {
+				return false
+			}
+			sel, isSel := ex.Tuple.(*ssa.Select)
+			idx, isC := an.ConstInt(bo.Y)
+			if !isSel || !isC || int(idx) >= len(sel.States) {
+				return false
+			}
+			return isStreamField(sel.States[idx].Chan, "headerC")
+		},
+	}.From(fn, nil)
+	c.Check(t == nil, rule, name+"|headers go out with the status", outcome.Pos(), "", "a path through Close publishes the outcome while the header latch is still held: a handler that calls grpc.SetHeader and then fails before sending a message loses its headers (the client's grpc.Header option stays empty), whereas a real connection delivers them with the status")
+}
+
 func r139(c *an.Ctx) {
 	const rule = "R13.9"
 	fn := mustFunc(c, rule, wrapPkg, "wrapper", "Invoke")
